@@ -1,5 +1,6 @@
 """C12 -- editing a molecule keeps atoms, bonds and interactions consistent."""
 import ast
+import re
 
 from ..index import u, call_name, call_attr, walk_local, base_name, dotted
 from .. import flow
@@ -247,9 +248,37 @@ def run(ck):
             continue   # the parameter is a single node, not an iterable
         uses, rebound = consuming_uses(m, param)
         consuming = [x for x in uses if x[0] != 'materialise']
-        ck.ob('ITER-one-shot', mod.loc(m), len(consuming) <= 1,
+        ck.ob('ITER-one-shot', mod.loc(m), len(consuming) <= (0 if rebound is not None else 1),
               'Molecule.{}: parameter `{}` is consumed {} time(s) before being materialised ({})'.format(name, param, len(consuming), uses),
               key='ITER-one-shot|' + name)
+    # the same for every other method of the module that walks an argument: an argument that is walked more than once is materialised first
+    # (a generator -- `molecule.subgraph(filter_minimal(..))` is the documented usage -- would be empty the second time)
+    nwalk = 0
+    for qual_, fn_ in sorted(mod.functions.items()):
+        if qual_.split('.')[-1] in removers or '.' in qual_ and qual_.split('.')[-1].startswith('__') and qual_.split('.')[-1] != '__init__':
+            continue
+        for p_ in param_names(fn_):
+            if p_ in ('self', 'cls'):
+                continue
+            walked = [l for l in walk_local(fn_) if (isinstance(l, ast.For) and u(l.iter) == p_) or
+                      (isinstance(l, (ast.ListComp, ast.SetComp, ast.DictComp, ast.GeneratorExp)) and any(u(g.iter) == p_ for g in l.generators))]
+            if not walked:
+                continue
+            # the contract is the one the docstring states: `atoms: collections.abc.Sequence` (add_interaction) may be walked twice,
+            # `nodes: collections.abc.Iterable` may not
+            doc_ = ast.get_docstring(fn_) or ''
+            declared = re.search(r'^\s*{}\s*:\s*(.+)$'.format(re.escape(p_)), doc_, re.M)
+            if declared and 'Iterable' not in declared.group(1) and 'Iterator' not in declared.group(1):
+                continue
+            uses_, rebound_ = consuming_uses(fn_, p_)
+            consuming_ = [x for x in uses_ if x[0] != 'materialise' and not x[0].startswith('call isinstance') and not x[0].startswith('call len')]
+            total_ = len(consuming_) + (1 if rebound_ is not None else 0)
+            if total_ <= 1:
+                continue
+            nwalk += 1
+            ck.ob('ITER-one-shot', mod.loc(fn_), False, '{}: argument `{}` is walked {} times ({}) without being materialised first: a one-shot iterable is empty from the '
+                  'second walk on'.format(qual_, p_, total_, uses_), key='ITER-one-shot|{}|{}'.format(qual_, p_))
+    ck.ob('ITER-one-shot', MOL, True, 'arguments walked more than once before being materialised, in the other functions of molecule.py: {}'.format(nwalk), key='ITER-one-shot|scan')
     purge = M('_remove_interactions_with_node')
     rem = calls_with_env(purge, lambda c: call_attr(c) == 'remove' and 'interactions' in u(c.func))
     ok = len(rem) == 1
